@@ -240,6 +240,139 @@ Proof.
 Qed.
 
 (* ------------------------------------------------------------------ *)
+(* D2, converse: with a label column that starts and ends outside a burst, every rising
+   transition is the start of a pair and every falling transition (+1) is the end of a pair *)
+
+Lemma nth_true_lt (l : list bool) n : nth n l false = true -> n < length l.
+Proof.
+  intros Hn. destruct (Nat.lt_ge_cases n (length l)) as [Hlt|Hge]; [exact Hlt|].
+  rewrite nth_overflow in Hn by exact Hge. discriminate Hn.
+Qed.
+
+Lemma edge_pairs_complete_gen lab : forall k,
+  nth (length lab - 1) lab false = false ->
+  (nth 0 lab false = false ->
+     (forall s, k <= s -> nth (s - k) lab false = false -> nth (S (s - k)) lab false = true ->
+        exists e, In (s, e) (edge_pairs (transitions k lab))) /\
+     (forall e', k <= e' -> nth (e' - k) lab false = true -> nth (S (e' - k)) lab false = false ->
+        exists s, In (s, S e') (edge_pairs (transitions k lab)))) /\
+  (nth 0 lab false = true ->
+     exists e0 rest, transitions k lab = e0 :: rest /\
+       (forall s, k <= s -> nth (s - k) lab false = false -> nth (S (s - k)) lab false = true ->
+          exists e, In (s, e) (edge_pairs rest)) /\
+       (forall e', k <= e' -> nth (e' - k) lab false = true -> nth (S (e' - k)) lab false = false ->
+          e' = e0 \/ exists s, In (s, S e') (edge_pairs rest))).
+Proof.
+  induction lab as [|x t IH]; intros k Hlast.
+  { split; [intros _|cbn; discriminate]. split.
+    - intros s _ _ Hs. destruct (s - k); discriminate Hs.
+    - intros e' _ He' _. destruct (e' - k); discriminate He'. }
+  destruct t as [|y t'].
+  { cbn [length Nat.sub nth] in Hlast. subst x. split; [intros _|cbn; discriminate]. split.
+    - intros s _ _ Hs. cbn [nth] in Hs. destruct (s - k); discriminate Hs.
+    - intros e' _ He' _. destruct (e' - k) as [|[|n]]; discriminate He'. }
+  replace (length (x :: y :: t') - 1) with (S (length (y :: t') - 1)) in Hlast by (cbn [length]; lia).
+  cbn [nth] in Hlast.
+  rewrite transitions_cons2. destruct (IH (S k) Hlast) as [IHf IHt]. cbn [nth] in IHf, IHt.
+  assert (Hshift : forall m, k <= m -> m <> k -> m - k = S (m - S k)) by (intros m Hm Hne; lia).
+  split; cbn [nth]; intros Hx; subst x.
+  - destruct y; cbn [Bool.eqb].
+    + (* a burst starts at k *)
+      destruct (IHt eq_refl) as (e0 & rest & Etr & Hrise & Hfall). rewrite Etr.
+      cbn [edge_pairs]. split.
+      * intros s Hk Hs Hs'. destruct (Nat.eq_dec s k) as [->|Hne].
+        -- exists (S e0). left. reflexivity.
+        -- rewrite (Hshift s Hk Hne) in Hs, Hs'. cbn [nth] in Hs, Hs'.
+           destruct (Hrise s ltac:(lia) Hs Hs') as (e & Hin). exists e. right. exact Hin.
+      * intros e' Hk He He'. destruct (Nat.eq_dec e' k) as [->|Hne].
+        -- rewrite Nat.sub_diag in He. discriminate He.
+        -- rewrite (Hshift e' Hk Hne) in He, He'. cbn [nth] in He, He'.
+           destruct (Hfall e' ltac:(lia) He He') as [->|(s & Hin)].
+           ++ exists k. left. reflexivity.
+           ++ exists s. right. exact Hin.
+    + destruct (IHf eq_refl) as (Hrise & Hfall). split.
+      * intros s Hk Hs Hs'. destruct (Nat.eq_dec s k) as [->|Hne].
+        -- rewrite Nat.sub_diag in Hs'. discriminate Hs'.
+        -- rewrite (Hshift s Hk Hne) in Hs, Hs'. cbn [nth] in Hs, Hs'.
+           exact (Hrise s ltac:(lia) Hs Hs').
+      * intros e' Hk He He'. destruct (Nat.eq_dec e' k) as [->|Hne].
+        -- rewrite Nat.sub_diag in He. discriminate He.
+        -- rewrite (Hshift e' Hk Hne) in He, He'. cbn [nth] in He, He'.
+           exact (Hfall e' ltac:(lia) He He').
+  - destruct y; cbn [Bool.eqb].
+    + destruct (IHt eq_refl) as (e0 & rest & Etr & Hrise & Hfall).
+      exists e0, rest. split; [exact Etr|]. split.
+      * intros s Hk Hs Hs'. destruct (Nat.eq_dec s k) as [->|Hne].
+        -- rewrite Nat.sub_diag in Hs. discriminate Hs.
+        -- rewrite (Hshift s Hk Hne) in Hs, Hs'. cbn [nth] in Hs, Hs'.
+           exact (Hrise s ltac:(lia) Hs Hs').
+      * intros e' Hk He He'. destruct (Nat.eq_dec e' k) as [->|Hne].
+        -- rewrite Nat.sub_diag in He'. discriminate He'.
+        -- rewrite (Hshift e' Hk Hne) in He, He'. cbn [nth] in He, He'.
+           exact (Hfall e' ltac:(lia) He He').
+    + (* the burst that was running ends at k *)
+      destruct (IHf eq_refl) as (Hrise & Hfall).
+      exists k, (transitions (S k) (false :: t')). split; [reflexivity|]. split.
+      * intros s Hk Hs Hs'. destruct (Nat.eq_dec s k) as [->|Hne].
+        -- rewrite Nat.sub_diag in Hs. discriminate Hs.
+        -- rewrite (Hshift s Hk Hne) in Hs, Hs'. cbn [nth] in Hs, Hs'.
+           exact (Hrise s ltac:(lia) Hs Hs').
+      * intros e' Hk He He'. destruct (Nat.eq_dec e' k) as [->|Hne]; [left; reflexivity|right].
+        rewrite (Hshift e' Hk Hne) in He, He'. cbn [nth] in He, He'.
+        exact (Hfall e' ltac:(lia) He He').
+Qed.
+
+(* a rising transition is the start of a pair *)
+Lemma edge_start_complete lab s :
+  nth 0 lab false = false -> nth (length lab - 1) lab false = false ->
+  nth s lab false = false -> nth (S s) lab false = true ->
+  exists e, In (s, e) (edge_pairs (transitions 0 lab)).
+Proof.
+  intros H0 Hlast Hs Hs'.
+  destruct (proj1 (edge_pairs_complete_gen lab 0 Hlast) H0) as (Hrise & _).
+  apply (Hrise s (Nat.le_0_l s)); rewrite Nat.sub_0_r; assumption.
+Qed.
+
+(* the cycle after a falling transition is the end of a pair *)
+Lemma edge_end_complete lab e' :
+  nth 0 lab false = false -> nth (length lab - 1) lab false = false ->
+  nth e' lab false = true -> nth (S e') lab false = false ->
+  exists s, In (s, S e') (edge_pairs (transitions 0 lab)).
+Proof.
+  intros H0 Hlast He He'.
+  destruct (proj1 (edge_pairs_complete_gen lab 0 Hlast) H0) as (_ & Hfall).
+  apply (Hfall e' (Nat.le_0_l e')); rewrite Nat.sub_0_r; assumption.
+Qed.
+
+(* D2, completeness: every non-burst cycle adjacent to a burst is an edge *)
+Theorem is_edge_complete lab i :
+  nth 0 lab false = false -> nth (length lab - 1) lab false = false ->
+  nth i lab false = false ->
+  (nth (S i) lab false = true \/ (1 <= i /\ nth (i - 1) lab false = true)) ->
+  is_edge lab i.
+Proof.
+  intros H0 Hlast Hi [Hnext|(Hi1 & Hprev)].
+  - destruct (edge_start_complete lab i H0 Hlast Hi Hnext) as (e & Hin).
+    exists i, e. split; [exact Hin|left; reflexivity].
+  - assert (Hi' : nth (S (i - 1)) lab false = false).
+    { replace (S (i - 1)) with i by lia. exact Hi. }
+    destruct (edge_end_complete lab (i - 1) H0 Hlast Hprev Hi') as (s & Hin).
+    replace (S (i - 1)) with i in Hin by lia.
+    exists s, i. split; [exact Hin|right; reflexivity].
+Qed.
+
+Corollary is_edge_iff lab i :
+  nth 0 lab false = false -> nth (length lab - 1) lab false = false ->
+  (is_edge lab i <->
+   nth i lab false = false /\
+   (nth (S i) lab false = true \/ (1 <= i /\ nth (i - 1) lab false = true))).
+Proof.
+  intros H0 Hlast. split.
+  - intros He. split; [exact (is_edge_not_burst lab i H0 He)|exact (is_edge_adjacent lab i H0 He)].
+  - intros (Hi & Hadj). exact (is_edge_complete lab i H0 Hlast Hi Hadj).
+Qed.
+
+(* ------------------------------------------------------------------ *)
 (* list helpers                                                         *)
 
 Lemma nth_error_upd {A} (l : list A) i x j : i < length l ->
@@ -745,6 +878,224 @@ Proof.
   apply (fold_edge_step_valued peak rows _ rows out H); try exact L2; try reflexivity.
   - unfold same_cols. repeat split.
   - right. exact He.
+Qed.
+
+(* ------------------------------------------------------------------ *)
+(* the direction of the value an edge ends up with: Next iff the burst follows the edge *)
+
+Definition edge_dir (lab : list bool) (j : nat) : direction :=
+  if nth (S j) lab false then Next else Last.
+
+(* the pairs are ordered in time: s < e within a pair, and e <= s' for every later pair *)
+Definition pairs_sorted (ps : list (nat * nat)) : Prop :=
+  Forall (fun p => fst p < snd p) ps /\ StronglySorted (fun p q => snd p <= fst q) ps.
+
+Lemma pairs_sorted_inv p ps : pairs_sorted (p :: ps) ->
+  fst p < snd p /\ (forall q, In q ps -> snd p <= fst q /\ fst q < snd q) /\ pairs_sorted ps.
+Proof.
+  intros (Hlt & Hs). apply Forall_cons_iff in Hlt as (Hp & Hlt).
+  apply StronglySorted_inv in Hs as (Hs & Hf).
+  split; [exact Hp|]. split; [|split; assumption].
+  rewrite Forall_forall in Hlt, Hf. intros q Hq. split; [exact (Hf q Hq)|exact (Hlt q Hq)].
+Qed.
+
+Lemma list_ind2 {A} (P : list A -> Prop) :
+  P [] -> (forall a, P [a]) -> (forall a b t, P t -> P (a :: b :: t)) -> forall l, P l.
+Proof.
+  intros Hnil Hone Hstep.
+  assert (G : forall l, P l /\ forall a, P (a :: l)).
+  { induction l as [|b l (IH1 & IH2)].
+    - split; [exact Hnil|exact Hone].
+    - split; [exact (IH2 b)|]. intros a. apply Hstep. exact IH1. }
+  intros l. apply G.
+Qed.
+
+Lemma edge_pairs_sorted tr : StronglySorted lt tr -> pairs_sorted (edge_pairs tr).
+Proof.
+  induction tr as [|a|a b t IH] using list_ind2; intros Hs.
+  - split; constructor.
+  - split; constructor.
+  - apply StronglySorted_inv in Hs as (Hs & Ha).
+    apply StronglySorted_inv in Hs as (Hs & Hb).
+    rewrite Forall_forall in Ha, Hb.
+    destruct (IH Hs) as (IHlt & IHs). cbn [edge_pairs]. split.
+    + constructor; [|exact IHlt]. cbn [fst snd]. specialize (Ha b (or_introl eq_refl)). lia.
+    + constructor; [exact IHs|]. apply Forall_forall. intros [s e] Hin. cbn [fst snd].
+      apply edge_pairs_In in Hin as (Hin & _). specialize (Hb s Hin). lia.
+Qed.
+
+(* the direction of the last write to row j while folding over the pairs ps *)
+Fixpoint last_dir (ps : list (nat * nat)) (j : nat) : option direction :=
+  match ps with
+  | [] => None
+  | (s, e) :: ps' =>
+    match last_dir ps' j with
+    | Some d => Some d
+    | None => if Nat.eqb j e then Some Last else if Nat.eqb j s then Some Next else None
+    end
+  end.
+
+Lemma last_dir_none ps j :
+  (forall s e, In (s, e) ps -> j <> s /\ j <> e) -> last_dir ps j = None.
+Proof.
+  induction ps as [|[s e] ps IH]; intros Hno; [reflexivity|].
+  cbn [last_dir]. rewrite IH by (intros s' e' Hin; apply Hno; right; exact Hin).
+  destruct (Hno s e (or_introl eq_refl)) as (Hs & He).
+  destruct (Nat.eqb_spec j e) as [E|_]; [contradiction|].
+  destruct (Nat.eqb_spec j s) as [E|_]; [contradiction|reflexivity].
+Qed.
+
+Lemma last_dir_sorted ps j : pairs_sorted ps ->
+  ((exists e, In (j, e) ps) -> last_dir ps j = Some Next) /\
+  ((exists s, In (s, j) ps) -> ~ (exists e, In (j, e) ps) -> last_dir ps j = Some Last).
+Proof.
+  induction ps as [|[s e] ps IH]; intros Hps.
+  { split; [intros (e & [])|intros (s & []) _]. }
+  apply pairs_sorted_inv in Hps as (Hse & Hlater & Hps). cbn [fst snd] in Hse.
+  destruct (IH Hps) as (IHn & IHl). cbn [last_dir]. split.
+  - intros (e1 & [Heq|Hin]).
+    + injection Heq as -> ->.
+      rewrite last_dir_none.
+      * destruct (Nat.eqb_spec j e1) as [E|_]; [lia|]. rewrite Nat.eqb_refl. reflexivity.
+      * intros s' e' Hin. destruct (Hlater _ Hin) as (H1 & H2). cbn [fst snd] in H1, H2. lia.
+    + rewrite IHn by (exists e1; exact Hin). reflexivity.
+  - intros (s1 & [Heq|Hin]) Hnostart.
+    + injection Heq as -> ->.
+      rewrite last_dir_none.
+      * rewrite Nat.eqb_refl. reflexivity.
+      * intros s' e' Hin. destruct (Hlater _ Hin) as (H1 & H2). cbn [fst snd] in H1, H2.
+        split; [|lia]. intros ->. apply Hnostart. exists e'. right. exact Hin.
+    + rewrite IHl; [reflexivity|exists s1; exact Hin|].
+      intros (e1 & Hin1). apply Hnostart. exists e1. right. exact Hin1.
+Qed.
+
+(* the last write to an edge is a Next write iff the burst follows the edge *)
+Lemma last_dir_edge lab j :
+  nth 0 lab false = false -> nth (length lab - 1) lab false = false -> is_edge lab j ->
+  last_dir (edge_pairs (transitions 0 lab)) j = Some (edge_dir lab j).
+Proof.
+  intros H0 Hlast He.
+  pose proof (edge_pairs_sorted _ (transitions_sorted 0 lab)) as Hps.
+  destruct (last_dir_sorted _ j Hps) as (Hn & Hl).
+  pose proof (is_edge_not_burst lab j H0 He) as Hj.
+  unfold edge_dir. destruct (nth (S j) lab false) eqn:Hj'.
+  - apply Hn. exact (edge_start_complete lab j H0 Hlast Hj Hj').
+  - assert (Hnostart : ~ (exists e, In (j, e) (edge_pairs (transitions 0 lab)))).
+    { intros (e & Hin). destruct (edge_pairs_spec lab j e H0 Hin) as (_ & Hs & _). congruence. }
+    destruct He as (s & e & Hin & [->| ->]).
+    + exfalso. apply Hnostart. exists e. exact Hin.
+    + apply Hl; [exists s; exact Hin|exact Hnostart].
+Qed.
+
+
+(* ------------------------------------------------------------------ *)
+(* D4 over the whole pass, with the direction: the pairs are processed in temporal order, each
+   as (start, Next) then (end, Last), and the last write to a row wins.                       *)
+
+Definition edge_valued_d (peak : bool) (rows t : list row) (j : nat) (d : direction) : Prop :=
+  exists r', nth_error t j = Some r' /\
+    ((1 <= j /\ j + 1 < length rows /\
+      f_ac (e_feat r') = clamp0 (amp_cons_at peak d (map e_rise rows) (map e_decay rows) j) /\
+      f_pc (e_feat r') = period_cons_at d (map e_period rows) j) \/
+     ((j = 0 \/ j + 1 = length rows) /\
+      isnan (f_ac (e_feat r')) = true /\ isnan (f_pc (e_feat r')) = true)).
+
+Lemma recompute_edge_valued_d peak (rows t t1 : list row) i d :
+  recompute_edge peak t i d = Ok t1 -> same_cols t rows ->
+  length t = length rows -> 2 <= length rows -> edge_valued_d peak rows t1 i d.
+Proof.
+  intros H (C1 & C2 & C3) L L2.
+  assert (Hi : i < length t).
+  { apply recompute_edge_inv in H as (ac & pc & a & p & r & _ & _ & _ & _ & Er & _).
+    apply nth_error_Some. congruence. }
+  destruct (Nat.eq_dec i 0) as [E0|N0].
+  { destruct (recompute_edge_value_nan _ _ _ _ _ H (or_introl E0) ltac:(lia)) as (r' & Hr' & N1 & N2).
+    exists r'. split; [exact Hr'|]. right. split; [left; exact E0|]. split; assumption. }
+  destruct (Nat.eq_dec (i + 1) (length t)) as [El|Nl].
+  { destruct (recompute_edge_value_nan _ _ _ _ _ H (or_intror El) ltac:(lia)) as (r' & Hr' & N1 & N2).
+    exists r'. split; [exact Hr'|]. right. split; [right; lia|]. split; assumption. }
+  destruct (recompute_edge_value _ _ _ _ _ H ltac:(lia) ltac:(lia)) as (r' & Hr' & V1 & V2).
+  exists r'. split; [exact Hr'|]. left. split; [lia|]. split; [lia|].
+  rewrite <- C1, <- C2, <- C3. split; assumption.
+Qed.
+
+Lemma fold_edge_step_valued_d peak (rows : list row) ps : forall (t out : list row),
+  fold_left (edge_step peak) ps (Ok t) = Ok out ->
+  same_cols t rows -> length t = length rows -> 2 <= length rows ->
+  forall j d, last_dir ps j = Some d \/ (last_dir ps j = None /\ edge_valued_d peak rows t j d) ->
+    edge_valued_d peak rows out j d.
+Proof.
+  induction ps as [|[s e] ps IH]; intros t out H C L L2 j d Hj.
+  - cbn [fold_left] in H. injection H as <-. cbn [last_dir] in Hj.
+    destruct Hj as [Hj|(_ & Hj)]; [discriminate Hj|exact Hj].
+  - cbn [fold_left] in H. unfold edge_step at 2 in H. cbn [bind fst snd] in H.
+    destruct (recompute_edge peak t s Next) as [t1|e1] eqn:E1; cbn [bind] in H;
+      [|rewrite fold_edge_step_err in H; discriminate].
+    destruct (recompute_edge peak t1 e Last) as [t2|e2] eqn:E2;
+      [|rewrite fold_edge_step_err in H; discriminate].
+    pose proof (recompute_edge_cols _ _ _ _ _ _ E1 C) as C1.
+    pose proof (recompute_edge_cols _ _ _ _ _ _ E2 C1) as C2.
+    destruct (recompute_edge_frame _ _ _ _ _ E1) as (L1 & F1 & _).
+    destruct (recompute_edge_frame _ _ _ _ _ E2) as (L2' & F2 & _).
+    apply (IH t2 out H C2 ltac:(congruence) L2 j d).
+    cbn [last_dir] in Hj.
+    destruct (last_dir ps j) as [d'|] eqn:Eld.
+    { left. destruct Hj as [Hj|(Hj & _)]; [exact Hj|discriminate Hj]. }
+    right. split; [reflexivity|].
+    destruct (Nat.eqb_spec j e) as [->|Ne].
+    { destruct Hj as [Hj|(Hj & _)]; [|discriminate Hj]. injection Hj as <-.
+      apply (recompute_edge_valued_d _ _ _ _ _ _ E2 C1); [congruence|exact L2]. }
+    destruct (Nat.eqb_spec j s) as [->|Ns].
+    { destruct Hj as [Hj|(Hj & _)]; [|discriminate Hj]. injection Hj as <-.
+      destruct (recompute_edge_valued_d _ _ _ _ _ _ E1 C L L2) as (r' & Hr' & V).
+      exists r'. split; [|exact V]. rewrite F2 by exact Ne. exact Hr'. }
+    destruct Hj as [Hj|(_ & r' & Hr' & V)]; [discriminate Hj|].
+    exists r'. split; [|exact V]. rewrite F2, F1 by assumption. exact Hr'.
+Qed.
+
+(* D4 with the direction stated: the value at an edge looks Next iff the burst follows the
+   edge, otherwise Last *)
+Theorem recompute_all_edge_value_dir peak (rows out : list row) j :
+  nth 0 (map e_lab rows) false = false -> nth (length rows - 1) (map e_lab rows) false = false ->
+  recompute_all peak rows = Ok out -> is_edge (map e_lab rows) j ->
+  exists r', nth_error out j = Some r' /\
+    ((1 <= j /\ j + 1 < length rows /\
+      f_ac (e_feat r') = clamp0 (amp_cons_at peak (edge_dir (map e_lab rows) j) (map e_rise rows) (map e_decay rows) j) /\
+      f_pc (e_feat r') = period_cons_at (edge_dir (map e_lab rows) j) (map e_period rows) j) \/
+     ((j = 0 \/ j + 1 = length rows) /\
+      isnan (f_ac (e_feat r')) = true /\ isnan (f_pc (e_feat r')) = true)).
+Proof.
+  intros H0 Hlast H He. rewrite recompute_all_fold in H.
+  destruct (is_edge_bounds _ _ He) as (_ & L2). rewrite map_length in L2.
+  assert (Hlast' : nth (length (map e_lab rows) - 1) (map e_lab rows) false = false)
+    by (rewrite map_length; exact Hlast).
+  apply (fold_edge_step_valued_d peak rows _ rows out H); try exact L2; try reflexivity.
+  - unfold same_cols. repeat split.
+  - left. exact (last_dir_edge _ j H0 Hlast' He).
+Qed.
+
+(* a single non-burst cycle between two bursts is the end of one pair and the start of the
+   next; the later (Next) write wins *)
+Corollary recompute_all_gap_between_two_bursts_looks_next peak (rows out : list row) j :
+  nth 0 (map e_lab rows) false = false -> nth (length rows - 1) (map e_lab rows) false = false ->
+  recompute_all peak rows = Ok out -> 1 <= j ->
+  nth (j - 1) (map e_lab rows) false = true -> nth j (map e_lab rows) false = false ->
+  nth (S j) (map e_lab rows) false = true ->
+  exists r', nth_error out j = Some r' /\
+     f_ac (e_feat r') = clamp0 (amp_cons_at peak Next (map e_rise rows) (map e_decay rows) j) /\
+     f_pc (e_feat r') = period_cons_at Next (map e_period rows) j.
+Proof.
+  intros H0 Hlast H Hj1 Hprev Hj Hnext.
+  assert (Hlast' : nth (length (map e_lab rows) - 1) (map e_lab rows) false = false)
+    by (rewrite map_length; exact Hlast).
+  assert (He : is_edge (map e_lab rows) j).
+  { apply is_edge_complete; [exact H0|exact Hlast'|exact Hj|left; exact Hnext]. }
+  pose proof (nth_true_lt _ _ Hnext) as Hlen. rewrite map_length in Hlen.
+  destruct (recompute_all_edge_value_dir peak rows out j H0 Hlast H He)
+    as (r' & Hr' & [(_ & _ & Vac & Vpc)|(Hends & _)]).
+  - exists r'. split; [exact Hr'|].
+    unfold edge_dir in Vac, Vpc. rewrite Hnext in Vac, Vpc. split; assumption.
+  - exfalso. lia.
 Qed.
 
 End EdgeProofs.
